@@ -145,6 +145,17 @@ def r1_order(program, rep):
             raise AnalysisError("flood_fill_aplx: the regions are read off "
                                 "a region tree built here, not returned by "
                                 "compress_flood_fill_regions; not analysed")
+        if len(ds) == 1 and isinstance(ds[0].value, ast.Call) and \
+                isinstance(ds[0].value.func, ast.Name) and \
+                call_name(ds[0].value)[0] != "compress_flood_fill_regions" \
+                and len(fl.reaching(ds[0].value.func.id, ds[0].node)) >= 1:
+            # the list comes from a function chosen at run time (a local
+            # bound to one of several producers): which one is not followed
+            raise AnalysisError("flood_fill_aplx: the region list is "
+                                "produced by a function held in a local "
+                                "variable (%s); which producer it is, and "
+                                "the order it returns, is not analysed" %
+                                ds[0].value.func.id)
         okc = len(ds) == 1 and isinstance(ds[0].value, ast.Call) and \
             call_name(ds[0].value)[0] == "compress_flood_fill_regions" and \
             len(ds[0].value.args) == 1 and not ds[0].value.keywords and \
